@@ -155,7 +155,9 @@ class MiniPCN(MCMCSampler):
 
         x = self.preconditioning_transform.inverse(z)[0]
 
-        samples_mcmc = Samples(x, xp=self.xp, parameters=self.parameters)
+        samples_mcmc = Samples(
+            x, xp=self.xp, parameters=self.parameters, dtype=self.dtype
+        )
         samples_mcmc.log_prior = samples_mcmc.array_to_namespace(
             self.log_prior(samples_mcmc)
         )
